@@ -45,6 +45,7 @@ CLAUSES = {
     'file-tokens-differ-from-adopted-candidate',
     'file-tokens-differ-from-accepted-candidate',
     'write-without-adoption', 'write-without-accepted-candidate',
+    'adoption-not-written-to-file',
     'result-differs-from-last-adopted-input', 'file-differs-from-result',
     'updated-input-is-not-the-adopted-candidate',
     'updated-input-is-not-the-accepted-candidate',
@@ -100,6 +101,7 @@ def make_configs(r, n):
             cc['reject'] = {'exit': 0, 'out': 'cc-sat\n', 'err': ''}
             meta['cc_spec'] = cc
             meta['compare']['cmd_cc'] = True
+            meta['same_basename'] = (i % 14 == 3)
     return cfgs
 
 
